@@ -37,6 +37,15 @@ struct Cx<'a> {
     loop_stack: Vec<(String, usize)>, // (label kind#k, arm counter inside that loop)
     if_ord: usize,
     if_stack: Vec<usize>, // if counter inside the innermost loop
+    ext: Ext,
+}
+
+#[derive(Default)]
+struct Ext {
+    stmt_stack: Vec<usize>,                                  // start offsets of the enclosing statements
+    mcall_counts: std::collections::HashMap<String, usize>, // ordinal of method calls by name (source order)
+    letlifts_seen: Vec<usize>,
+    return_ord: usize,
 }
 
 fn pat_idents(p: &syn::Pat, out: &mut Vec<String>) {
@@ -72,18 +81,43 @@ fn expr_ident(e: &syn::Expr) -> Option<String> {
     }
 }
 
-fn contains_continue(b: &syn::Block) -> bool {
-    struct C(bool);
+fn contains_continue(b: &syn::Block, label: Option<String>) -> bool {
+    // a `continue` that targets this loop (unlabeled at depth 0, or carrying this loop's label at any depth), or a labeled
+    // `continue` of an enclosing loop written directly in this body
+    struct C(bool, usize, Option<String>);
     impl<'ast> Visit<'ast> for C {
-        fn visit_expr_continue(&mut self, _: &'ast syn::ExprContinue) {
-            self.0 = true;
+        fn visit_expr_continue(&mut self, c: &'ast syn::ExprContinue) {
+            match &c.label {
+                None => {
+                    if self.1 == 0 {
+                        self.0 = true;
+                    }
+                }
+                Some(l) => {
+                    if self.1 == 0 || Some(l.ident.to_string()) == self.2 {
+                        self.0 = true;
+                    }
+                }
+            }
         }
         fn visit_expr_closure(&mut self, _: &'ast syn::ExprClosure) {}
-        fn visit_expr_for_loop(&mut self, _: &'ast syn::ExprForLoop) {}
-        fn visit_expr_while(&mut self, _: &'ast syn::ExprWhile) {}
-        fn visit_expr_loop(&mut self, _: &'ast syn::ExprLoop) {}
+        fn visit_expr_for_loop(&mut self, f: &'ast syn::ExprForLoop) {
+            self.1 += 1;
+            self.visit_block(&f.body);
+            self.1 -= 1;
+        }
+        fn visit_expr_while(&mut self, w: &'ast syn::ExprWhile) {
+            self.1 += 1;
+            self.visit_block(&w.body);
+            self.1 -= 1;
+        }
+        fn visit_expr_loop(&mut self, l: &'ast syn::ExprLoop) {
+            self.1 += 1;
+            self.visit_block(&l.body);
+            self.1 -= 1;
+        }
     }
-    let mut c = C(false);
+    let mut c = C(false, 0, label);
     c.visit_block(b);
     c.0
 }
@@ -521,7 +555,7 @@ impl<'a, 'ast> Visit<'ast> for Cx<'a> {
             let s = c.or1_token.span().byte_range().start;
             let e = c.body.span().byte_range().start;
             // by-value bindings under & in params still need their lets
-            let mut scratch = Cx { src: self.src, slot: self.slot, retarget: self.retarget, edits: vec![], log: vec![], seq: 0, err: None, loop_ord: 0, closure_ord: 0, base_line: self.base_line, loops_seen: vec![], closures_seen: vec![], let_counts: Default::default(), let_hints_used: vec![], arm_ord: 0, kind_ord: Default::default(), kloops_seen: vec![], loop_stack: vec![], if_ord: 0, if_stack: vec![] };
+            let mut scratch = Cx { src: self.src, slot: self.slot, retarget: self.retarget, edits: vec![], log: vec![], seq: 0, err: None, loop_ord: 0, closure_ord: 0, base_line: self.base_line, loops_seen: vec![], closures_seen: vec![], let_counts: Default::default(), let_hints_used: vec![], arm_ord: 0, kind_ord: Default::default(), kloops_seen: vec![], loop_stack: vec![], if_ord: 0, if_stack: vec![], ext: Default::default() };
             // names of the header's parameters, positionally
             let hdr_names: Vec<String> = {
                 let h = header.trim();
@@ -580,7 +614,7 @@ impl<'a, 'ast> Visit<'ast> for Cx<'a> {
                     continue;
                 }
                 // N3: a destructuring closure parameter becomes a variable plus a `let` at the head of the body
-                let mut scratch = Cx { src: self.src, slot: self.slot, retarget: self.retarget, edits: vec![], log: vec![], seq: 0, err: None, loop_ord: 0, closure_ord: 0, base_line: self.base_line, loops_seen: vec![], closures_seen: vec![], let_counts: Default::default(), let_hints_used: vec![], arm_ord: 0, kind_ord: Default::default(), kloops_seen: vec![], loop_stack: vec![], if_ord: 0, if_stack: vec![] };
+                let mut scratch = Cx { src: self.src, slot: self.slot, retarget: self.retarget, edits: vec![], log: vec![], seq: 0, err: None, loop_ord: 0, closure_ord: 0, base_line: self.base_line, loops_seen: vec![], closures_seen: vec![], let_counts: Default::default(), let_hints_used: vec![], arm_ord: 0, kind_ord: Default::default(), kloops_seen: vec![], loop_stack: vec![], if_ord: 0, if_stack: vec![], ext: Default::default() };
                 scratch.pat(inner_pat, false, &mut derefs);
                 let r = inner_pat.span().byte_range();
                 let mut es: Vec<&Edit> = scratch.edits.iter().collect();
@@ -627,7 +661,7 @@ impl<'a, 'ast> Visit<'ast> for Cx<'a> {
         self.pat(&f.pat, false, &mut derefs);
         let spec = self.loop_spec_k(ord, "for");
         let open = f.body.brace_token.span.open().byte_range();
-        if contains_continue(&f.body) {
+        if contains_continue(&f.body, f.label.as_ref().map(|l| l.name.ident.to_string())) {
             // N13: for PAT in EXPR { .. }  =>  { let mut __it = IntoIterator::into_iter(EXPR); while let Some(PAT) = __it.next() <spec> { .. } }
             let for_kw = f.for_token.span().byte_range();
             let pat_r = f.pat.span().byte_range();
@@ -636,7 +670,17 @@ impl<'a, 'ast> Visit<'ast> for Cx<'a> {
             let whole = f.span().byte_range();
             let itn = format!("__it{}", ord);
             let before = self.src[for_kw.start..ex.end].to_string();
-            self.replace(for_kw.start..pat_r.start, format!("{{ let mut {} = IntoIterator::into_iter({}); while let Some(", itn, &self.src[ex.clone()]));
+            // a loop label moves from the `for` to the `while` (a label on the enclosing block would not accept `continue`)
+            let label = match &f.label {
+                Some(l) => {
+                    let lr = l.span().byte_range();
+                    let t = format!("{} ", &self.src[lr.clone()]);
+                    self.replace(lr.start..for_kw.start, String::new());
+                    t
+                }
+                None => String::new(),
+            };
+            self.replace(for_kw.start..pat_r.start, format!("{{ let mut {} = IntoIterator::into_iter({}); {}while let Some(", itn, &self.src[ex.clone()], label));
             let clauses = spec.as_ref().map(|s| s.1.clone()).unwrap_or_default();
             self.replace(pat_r.end..open.start, format!(") = {}.next() {} ", itn, clauses));
             let _ = in_kw;
@@ -871,6 +915,32 @@ impl<'a, 'ast> Visit<'ast> for Cx<'a> {
         self.handle_macro(&m.mac, m.span().byte_range());
     }
 
+    fn visit_stmt(&mut self, st: &'ast syn::Stmt) {
+        self.ext.stmt_stack.push(st.span().byte_range().start);
+        syn::visit::visit_stmt(self, st);
+        self.ext.stmt_stack.pop();
+    }
+
+    fn visit_expr_return(&mut self, r: &'ast syn::ExprReturn) {
+        // structural hint anchor: before the K-th `return` (source order): return E => { HINT return E }
+        let k = self.ext.return_ord;
+        self.ext.return_ord += 1;
+        let key = format!("before_return {}", k);
+        let hs: Vec<(String, String)> = self.slot.hints.iter().filter(|h| h.0 == key).cloned().collect();
+        if !hs.is_empty() {
+            let rr = r.span().byte_range();
+            let mut t = String::from("{ ");
+            for (w, h) in hs {
+                t.push_str(&h);
+                t.push(' ');
+                self.let_hints_used.push(w);
+            }
+            self.insert(rr.start, t);
+            self.insert(rr.end, " }");
+        }
+        syn::visit::visit_expr_return(self, r);
+    }
+
     fn visit_stmt_macro(&mut self, m: &'ast syn::StmtMacro) {
         // keep a trailing `;`
         let r = m.mac.span().byte_range();
@@ -879,6 +949,40 @@ impl<'a, 'ast> Visit<'ast> for Cx<'a> {
 
     fn visit_expr_method_call(&mut self, m: &'ast syn::ExprMethodCall) {
         let name = m.method.to_string();
+        {
+            // N18: `//@letlift .method#k as v`: the k-th call of `.method` is bound to `v` in a `let` placed before the
+            // statement it occurs in, and `v` stands in its place
+            let k = *self.ext.mcall_counts.get(&name).unwrap_or(&0);
+            self.ext.mcall_counts.insert(name.clone(), k + 1);
+            let hit = self.slot.letlifts.iter().position(|(mn, mk, _)| mn == &name && *mk == k);
+            if let Some(ix) = hit {
+                let var = self.slot.letlifts[ix].2.clone();
+                let whole = m.span().byte_range();
+                match self.ext.stmt_stack.last().cloned() {
+                    Some(st) => {
+                        self.ext.letlifts_seen.push(ix);
+                        let before = self.src[whole.clone()].to_string();
+                        // the new binding is an `after_let` anchor like any other
+                        let lk = *self.let_counts.get(&var).unwrap_or(&0);
+                        self.let_counts.insert(var.clone(), lk + 1);
+                        let keys = if lk == 0 { vec![format!("after_let {}", var), format!("after_let {}#0", var)] } else { vec![format!("after_let {}#{}", var, lk)] };
+                        let hs: Vec<(String, String)> = self.slot.hints.iter().filter(|h| keys.contains(&h.0)).cloned().collect();
+                        let mut tail = String::new();
+                        for (w, t) in hs {
+                            tail.push_str(&t);
+                            tail.push(' ');
+                            self.let_hints_used.push(w);
+                        }
+                        self.seq += 1;
+                        self.edits.push(Edit { start: st, end: st, text: format!("let {} = \u{1}; {}", var, tail), seq: self.seq, copy: Some((whole.start, whole.end)) });
+                        self.seq += 1;
+                        self.edits.push(Edit { start: whole.start, end: whole.end, text: format!("\u{2}{}", var), seq: self.seq, copy: None });
+                        self.note("N18", whole.start, &before, &format!("let {} = <the call>; before the statement, {} in its place", var, var));
+                    }
+                    None => self.fail(format!("line {}: letlift of a call outside a statement", self.line(whole.start))),
+                }
+            }
+        }
         let key = format!(".{}", name);
         let hit = self.slot.retarget.iter().chain(self.retarget.iter()).find(|(a, _)| a == &key).map(|(_, b)| b.clone());
         let hit = match hit {
@@ -1045,7 +1149,7 @@ pub fn rewrite_body(slot: &SlotSpec, found: &Found, retarget: &[(String, String)
         text = text.replacen(a.as_str(), b, 1);
     }
     let block: syn::Block = syn::parse_str(&text).map_err(|e| Undecided(format!("body does not parse: {}", e)))?;
-    let mut cx = Cx { src: &text, slot, retarget, edits: vec![], log: vec![], seq: 0, err: None, loop_ord: 0, closure_ord: 0, base_line: found.body_line_start, loops_seen: vec![], closures_seen: vec![], let_counts: Default::default(), let_hints_used: vec![], arm_ord: 0, kind_ord: Default::default(), kloops_seen: vec![], loop_stack: vec![], if_ord: 0, if_stack: vec![] };
+    let mut cx = Cx { src: &text, slot, retarget, edits: vec![], log: vec![], seq: 0, err: None, loop_ord: 0, closure_ord: 0, base_line: found.body_line_start, loops_seen: vec![], closures_seen: vec![], let_counts: Default::default(), let_hints_used: vec![], arm_ord: 0, kind_ord: Default::default(), kloops_seen: vec![], loop_stack: vec![], if_ord: 0, if_stack: vec![], ext: Default::default() };
     for st in &block.stmts {
         cx.visit_stmt(st);
     }
@@ -1110,6 +1214,10 @@ pub fn rewrite_body(slot: &SlotSpec, found: &Found, retarget: &[(String, String)
             }
             let p = text.find(anchor).unwrap() + anchor.len();
             cx.insert(p, format!(" {} ", t));
+        } else if w.starts_with("before_return ") {
+            if !cx.let_hints_used.contains(w) {
+                bail!("lost anchor: hint `{}`: the body has no such return", w);
+            }
         } else if w.starts_with("after_let ") || w.starts_with("arm_start ") || w.starts_with("arm_end ") || w.starts_with("if_then ") {
             if !cx.let_hints_used.contains(w) {
                 bail!("lost anchor: hint `{}`: no such let binding", w);
@@ -1128,6 +1236,11 @@ pub fn rewrite_body(slot: &SlotSpec, found: &Found, retarget: &[(String, String)
         }
         cx.insert(close, format!(" {} ", ret));
         cx.log.push(json!({"rule": "N9", "line": found.item_line_end, "before": "", "after": format!("lifted statements return `{}`", ret)}));
+    }
+    for (ix, (mn, mk, _)) in slot.letlifts.iter().enumerate() {
+        if !cx.ext.letlifts_seen.contains(&ix) {
+            bail!("lost anchor: letlift .{}#{}: the body has no such call", mn, mk);
+        }
     }
     for (n, _, _) in &slot.loops {
         if !cx.loops_seen.contains(n) {
@@ -1153,7 +1266,12 @@ pub fn rewrite_body(slot: &SlotSpec, found: &Found, retarget: &[(String, String)
     edits.sort_by(|a, b| (a.start, a.end != a.start, a.seq).cmp(&(b.start, b.end != b.start, b.seq)));
     let mut out = String::new();
     let mut pos = 0usize;
+    let mut lifted_until = 0usize;
     for e in &edits {
+        if e.end <= lifted_until && e.start < lifted_until && e.copy.is_none() {
+            // a rewrite inside a call that N18 moved into a `let`: it is applied in the copy
+            continue;
+        }
         if e.start < pos {
             bail!("overlapping rewrites at line {} (construct outside the catalogue)", found.body_line_start + line_of(&text, e.start) - 1);
         }
@@ -1164,6 +1282,13 @@ pub fn rewrite_body(slot: &SlotSpec, found: &Found, retarget: &[(String, String)
             let mut p = cs;
             for f in &edits {
                 if f.start >= cs && f.end <= ce {
+                    if f.text.starts_with('\u{2}') && f.start == cs && f.end == ce {
+                        continue;
+                    }
+                    if f.start == f.end && (f.start == cs || f.start == ce) {
+                        // an insertion at the boundary belongs to the surrounding expression
+                        continue;
+                    }
                     if f.copy.is_some() {
                         bail!("nested guard copies (N16) at line {}", found.body_line_start + line_of(&text, f.start) - 1);
                     }
@@ -1181,6 +1306,9 @@ pub fn rewrite_body(slot: &SlotSpec, found: &Found, retarget: &[(String, String)
             }
             let inner = inner.replace('\n', " ");
             out.push_str(&e.text.replace('\u{1}', &inner));
+        } else if let Some(t) = e.text.strip_prefix('\u{2}') {
+            out.push_str(t);
+            lifted_until = e.end;
         } else {
             out.push_str(&e.text);
         }
